@@ -142,7 +142,12 @@ def replay(path):
     nat = rep.run(case)
     rep.close()
     print(json.dumps(nat)[:2000])
-    if confirm(case, nat):
+    if case.get("op") == "dblog_script":
+        from . import c06
+        bad = c06.db_confirm(case, nat)
+    else:
+        bad = confirm(case, nat)
+    if bad:
         print("VIOLATION property=%s replay=%s" % (PROP, path))
         return 1
     return 0
